@@ -150,15 +150,22 @@ def gen_op(rng, contract=True):
     return 'musp,%d,%s,%s,%s' % (rng.choice([0, 1, 31, 62, 63]), rng.choice('N01'), rng.choice('N01'), rng.choice('N01'))
 
 
-def gen_bad_op(rng):
-    return rng.choice([
+BAD_OPS = [
         'gs,256,1,1', 'gs,-1,1,1', 'gs,0,0,1', 'gs,0,1,0', 'mgc,128,0', 'mgc,0,64', 'mgc,-1,0', 'msc,0,0,256', 'msc,0,0,-1',
         'msc,128,3,1', 'mgr,128,0,1,1', 'mgr,0,0,0,1', 'mgr,0,0,1,0', 'mgr,0,64,1,1', 'fg,256,1', 'fs,-1,1', 'fc,256,1', 'fr,300,1',
         'fs,0,256', 'fs,0,511', 'fc,0,256', 'fr,0,256', 'fr,0,-1', 'fg,0,-1',
         'sgn,64,0', 'sgn,0,32', 'ssn,0,0,64,N,N,N', 'ssn,0,0,N,16,N,N', 'ssn,0,0,N,N,8,N', 'ssn,0,0,N,N,N,8', 'ssn,64,0,1,1,1,1',
         'sgp,64', 'ssp,64,1,N,N,N', 'ssp,0,256,N,N,N', 'ssp,0,N,N,N,-1', 'mugc,64,0', 'mugc,0,4', 'musc,0,0,64', 'musc,0,4,1', 'musc,64,0,N',
         'mugp,64', 'musp,64,1,N,N', 'ss,0,0,0,11/12', 'ss,255,7,7,0102030405060708090a/01', 'msr,0,0,ff/00', 'ss,0,-1,0,01',
-        'ss,0,0,-1,01', 'msr,-1,0,01', 'msr,0,-1,01'])
+        'ss,0,0,-1,01', 'msr,-1,0,01', 'msr,0,-1,01',
+        # negative ids / coordinates: Python would index from the end, the accessors must refuse (or model and code agree)
+        'fg,-1,1', 'fc,-1,1', 'fr,-1,1', 'fg,-256,1', 'mgc,0,-1', 'msc,-1,0,1', 'msc,0,-1,1', 'mgr,-1,0,1,1', 'mgr,0,-1,1,1',
+        'sgn,-1,0', 'sgn,0,-1', 'ssn,-1,0,1,1,1,1', 'ssn,0,-1,1,1,1,1', 'sgp,-1', 'ssp,-1,1,N,N,N', 'mugc,-1,0', 'mugc,0,-1',
+        'musc,-1,0,1', 'musc,0,-1,1', 'mugp,-1', 'musp,-1,1,N,N', 'ss,-1,0,0,01', 'ss,256,0,0,01', 'gs,0,-1,1', 'gs,0,1,-1']
+
+
+def gen_bad_op(rng):
+    return rng.choice(BAD_OPS)
 
 
 def generate(tier, rng):
@@ -174,8 +181,10 @@ def generate(tier, rng):
             if rng.random() < 0.7:
                 case['mem'][3] = case['mem'][2]
         yield case
-    for i in range(60 if tier == 'quick' else 600):
-        ops = [gen_op(rng) for _ in range(rng.randrange(0, 4))] + [gen_bad_op(rng)]
+    nbad = 60 if tier == 'quick' else 600
+    for i in range(len(BAD_OPS) + nbad):
+        # every out-of-contract call once, then random ones
+        ops = [gen_op(rng) for _ in range(rng.randrange(0, 4))] + [BAD_OPS[i] if i < len(BAD_OPS) else gen_bad_op(rng)]
         yield {'hasgfx': rng.choice([1, 1, 0]), 'mem': [lib.hx(r) for r in _mem(rng, 'ramp')], 'ops': ops, 'bad': True}
     if tier != 'quick':
         # exhaustive single placements along both edges
